@@ -411,6 +411,51 @@ def c14(ctx, rep):
             'traces beyond the prefix.')
 
 
+def c15(ctx, rep):
+    crate = ctx.crate('dbg')
+    for a in MODEL_ASSUMPTIONS[:2]:
+        rep.assume(a)
+    rep.assume('floating-point accuracy, overflow of k! and mean^k, underflow of exp(-mean) and the value returned for large means '
+               'are NOT decided: they depend on rounding, not on code shape')
+    model_rules(rep)
+    rep.rule('TERM', 'the accumulation loop of ApproximatedPoisson::number_arrivals needs an exit that does not depend on a floating-point sum')
+    rep.rule('ZERO', 'number_arrivals(0) = 0 by the delta guard')
+    n = rules_models.check_ref(rep, crate, 'C15')
+    # termination: the same TERM rule as C20, restricted to poisson.rs
+    col = controls.Collector()
+    rules_total.check_term(col, crate, 'dbg')
+    k = 0
+    for b in col.bads + col.oks:
+        if 'poisson' in (b.get('fn') or ''):
+            k += 1
+            if b in col.bads:
+                rep.bad(b['rule'], b['key'], 'src/arrival/poisson.rs', b['fact'], 'an exit that does not depend on a floating-point sum (e.g. a bound on njobs)', fn=b['fn'],
+                        direction='does not terminate when the accumulated probability never reaches 1 - epsilon',
+                        why='exp(-mean) underflows to 0 for mean >= ~745 and k!/mean^k overflow: the sum then stays at 0 or becomes NaN')
+            else:
+                rep.ok(b['rule'], b['key'], 'src/arrival/poisson.rs', b['fact'], fn=b['fn'])
+    z = 0
+    for b in rules_models.impls_of(crate, 'arrival::ArrivalBound', 'number_arrivals'):
+        if 'poisson' in b.path:
+            from .evalr import Evaluator
+            from . import term as T
+            t = Evaluator(crate).eval_body(b)
+            t0 = T.substitute(t, {T.unroot(rules_models.P(1)): T.const(0)})
+            z += 1
+            if T.as_lin(t0) == T.const(0):
+                rep.ok('ZERO', f'ZERO:{b.path}', 'src/arrival/poisson.rs', 'number_arrivals(0) evaluates to the constant 0 (guard on delta)', fn=b.path)
+            else:
+                rep.bad('ZERO', f'ZERO:{b.path}', 'src/arrival/poisson.rs', f'number_arrivals(0) = {T.show(t0)[:160]}', '0', fn=b.path)
+    rep.floor('reference summaries compared', n, 5)
+    rep.floor('loops / consumers of poisson.rs inspected', k, 1)
+    rep.floor('zero guard', z, 1)
+    return ('Narrow static claim for the Poisson model: arrival_probability and number_arrivals compute the documented formula as written '
+            '(e^-m * m^k / k! with m = rate*delta; accumulate until the cumulative probability plus epsilon reaches 1), number_arrivals(0) = 0, '
+            'and the termination clause: the accumulation loop has no exit other than a floating-point comparison -- reported today as a '
+            'known finding (it does not return for means of about 745 and more). Does NOT decide that the returned value is the quantile '
+            '(for large means it is not: factorial and power overflow), monotonicity in delta, or any floating-point accuracy.')
+
+
 def c16(ctx, rep):
     crate = ctx.crate('dbg')
     for a in MODEL_ASSUMPTIONS:
@@ -493,7 +538,7 @@ def c17(ctx, rep):
 
 PROPS = {
     'C17': c17,
-    'C09': c09, 'C10': c10, 'C11': c11, 'C12': c12, 'C13': c13, 'C14': c14, 'C16': c16,
+    'C09': c09, 'C10': c10, 'C11': c11, 'C15': c15, 'C12': c12, 'C13': c13, 'C14': c14, 'C16': c16,
     'C20': c20,
     'C04': ros2_prop(['ecrts19'], 'safe', 'C04', 40),
     'C05': ros2_prop(['rr', 'bw'], 'safe', 'C05', 25),
